@@ -417,10 +417,11 @@ def run(ctx):
                     'dispatch/F1/F3 theorems closed under the global context',
                     'Interval tactic (uses primitive floats/ints) for the generated F2 correspondence goals']
     vlib.audit(ctx)
-    if not vlib.ensure_static(ctx, ['theories/Props/C01.vo', 'theories/Props/C01b.vo', 'theories/Model/DispatchZ.vo']):
+    if not vlib.ensure_static(ctx, ['theories/Props/C01.vo', 'theories/Props/C01b.vo', 'theories/Props/C01c.vo', 'theories/Model/DispatchZ.vo']):
         return
     vlib.check_props(ctx)
     vlib.check_props(ctx, 'theories/Props/C01b.v')
+    vlib.check_props(ctx, 'theories/Props/C01c.v')
     quick = ctx.quick()
     broken = False
     # (a) dispatch
@@ -478,6 +479,9 @@ def run(ctx):
         broken = True
         ctx.violation('correspondence', labels[idx][0], 'premises of the secant identity (A u = b, A^T db = w, dA = -db (x) u / A B = 1, dA = -B^T W B^T)', 'F3',
                       dict(label=labels[idx], coq=checks[idx][:3000]))
+    # (b'') OverhangFilter: model of _sensitivity (Model/OverhangAdj.v, theorems Props/C01c.v) against the implementation
+    import C01_overhang
+    C01_overhang.run_part(ctx, pym)
     # (c) F2 interval goals
     goals, glabels = f2_goals(ctx, pym, 40 if quick else 400)
     fails = run_goals(ctx, 'f2', HEADER_F2, goals, glabels)
